@@ -57,8 +57,10 @@ def len_passes_agree(rep, rule, prog, cg):
                 rep.anchor_missing(rule, 'unchecked length pass %s' % n)
                 continue
             cx, cy = skippers.const_return(x, prog, cg), skippers.const_return(y, prog, cg)
-            sx = tp.semantic_set(ch.sig(x))
-            sy = tp.semantic_set(un.sig(y))
+            # (private field names are the implementation's own business: `reset` is compared on what it stores, not where)
+            anon = lambda st: {(t[0], '#') + tuple(t[2:]) if t[0] == 'set' else t for t in st}
+            sx = anon(tp.semantic_set(ch.sig(x)))
+            sy = anon(tp.semantic_set(un.sig(y)))
             if cx == cy and sx == sy:
                 rep.ok(rule, key, 'same constant %s / same shape' % cx, y.loc())
             else:
